@@ -1,6 +1,164 @@
 package sim
 
-type kaState struct{}
+import (
+	"context"
+	"errors"
+	"time"
 
-func (s *Sim) extraSetup() {}
-func (s *Sim) kaTeardown() {}
+	mqtt "github.com/at-wat/mqtt-go"
+)
+
+// keepalive family (C13 part 1): mqtt.KeepAlive driven against a scripted
+// Client whose Ping outcome per call is scenario data.
+
+var errKAFail = errors.New("simclient: ping failed")
+
+type kaState struct {
+	cancel context.CancelFunc
+	n      int
+}
+
+type kaClient struct{ s *Sim }
+
+func (k *kaClient) Connect(ctx context.Context, clientID string, opts ...mqtt.ConnectOption) (bool, error) {
+	return false, nil
+}
+func (k *kaClient) Disconnect(ctx context.Context) error                  { return nil }
+func (k *kaClient) Publish(ctx context.Context, m *mqtt.Message) error     { return nil }
+func (k *kaClient) Unsubscribe(ctx context.Context, subs ...string) error  { return nil }
+func (k *kaClient) Handle(mqtt.Handler)                                    {}
+func (k *kaClient) Subscribe(ctx context.Context, subs ...mqtt.Subscription) ([]mqtt.Subscription, error) {
+	return nil, nil
+}
+
+func (k *kaClient) Ping(ctx context.Context) error {
+	s := k.s
+	s.mu.Lock()
+	n := s.ka.n
+	s.ka.n++
+	s.mu.Unlock()
+	out := KAPing{Kind: "answer"}
+	if n < len(s.sc.Cfg.KAPings) {
+		out = s.sc.Cfg.KAPings[n]
+	}
+	dl, hasDl := ctx.Deadline()
+	r := Rec{Kind: "kaping", N: n, S: out.Kind, V: out.DelayUs}
+	if hasDl {
+		r.Err = time.Until(dl).String()
+	}
+	s.log(r)
+	var err error
+	switch out.Kind {
+	case "fail":
+		err = errKAFail
+	case "never":
+		<-ctx.Done()
+		err = ctx.Err()
+	default:
+		if out.DelayUs > 0 {
+			tm := time.NewTimer(time.Duration(out.DelayUs) * time.Microsecond)
+			select {
+			case <-tm.C:
+			case <-ctx.Done():
+				tm.Stop()
+				err = ctx.Err()
+			}
+		} else if ctx.Err() != nil {
+			err = ctx.Err()
+		}
+	}
+	rr := Rec{Kind: "kapingret", N: n}
+	if err != nil {
+		rr.Err = err.Error()
+	}
+	s.log(rr)
+	return err
+}
+
+func (s *Sim) extraSetup() {
+	cfg := &s.sc.Cfg
+	if cfg.Client != "keepalive" {
+		return
+	}
+	s.ka = &kaState{}
+	ctx, cancel := context.WithCancel(context.Background())
+	s.ka.cancel = cancel
+	if cfg.KAPreCancel {
+		cancel()
+		s.log(Rec{Kind: "kacancel", S: "pre"})
+	} else if cfg.KACancelUs > 0 {
+		s.at(us(cfg.KACancelUs)+499, "kacancel", func() {
+			s.log(Rec{Kind: "kacancel"})
+			cancel()
+		})
+	}
+	s.log(Rec{Kind: "kastart"})
+	go func() {
+		err := mqtt.KeepAlive(ctx, &kaClient{s}, time.Duration(cfg.KAIntervalUs)*time.Microsecond, time.Duration(cfg.KATimeoutUs)*time.Microsecond)
+		r := Rec{Kind: "karet"}
+		if err != nil {
+			r.Err = err.Error()
+			r.Cls = classify(err)
+			r.B = err == errKAFail
+		}
+		s.log(r)
+	}()
+}
+
+func (s *Sim) kaTeardown() {
+	if s.ka != nil && s.ka.cancel != nil {
+		s.ka.cancel()
+	}
+}
+
+func genKeepAlive(r *Rng, prop string) *Scenario {
+	sc := &Scenario{}
+	cfg := &sc.Cfg
+	cfg.Client = "keepalive"
+	u := r.pickI(1000, 7000, 100000, 1000000) // unit in us
+	a := r.between(1, 5)
+	b := r.between(1, 5)
+	if r.chance(0.3) {
+		b = a // default: timeout = interval
+	}
+	cfg.KAIntervalUs = u * a
+	cfg.KATimeoutUs = u * b
+	lim := a
+	if b < a {
+		lim = b
+	}
+	n := int(r.between(1, 8))
+	inTime := func() int64 {
+		// strictly inside min(timeout, interval), never on a grid point
+		return r.between(0, lim*10-1)*u/10 + u/30
+	}
+	for i := 0; i < n; i++ {
+		cfg.KAPings = append(cfg.KAPings, KAPing{Kind: "answer", DelayUs: inTime()})
+	}
+	switch r.weighted(3, 3, 2, 2, 2) {
+	case 0:
+		cfg.KAPings = append(cfg.KAPings, KAPing{Kind: "never"})
+	case 1:
+		cfg.KAPings = append(cfg.KAPings, KAPing{Kind: "fail"})
+	case 2:
+		// answered, but only after the timeout
+		cfg.KAPings = append(cfg.KAPings, KAPing{Kind: "answer", DelayUs: u*b + r.between(1, 20)*u/10 + u/30})
+	case 3:
+		if b > a {
+			// in time, but slower than the interval
+			cfg.KAPings = append(cfg.KAPings, KAPing{Kind: "answer", DelayUs: u*a + r.between(0, (b-a)*10-1)*u/10 + u/30})
+			cfg.KAPings = append(cfg.KAPings, KAPing{Kind: "answer", DelayUs: inTime()})
+		}
+	case 4:
+	}
+	total := int64(len(cfg.KAPings)+4)*cfg.KAIntervalUs + 3*cfg.KATimeoutUs
+	switch r.weighted(5, 3, 1) {
+	case 1:
+		cfg.KACancelUs = r.between(0, total/u*10)*u/10 + u/3
+	case 2:
+		cfg.KAPreCancel = true
+	}
+	sc.HorizonUs = total
+	sc.EndUs = total + cfg.KAIntervalUs + cfg.KATimeoutUs
+	return sc
+}
